@@ -250,7 +250,19 @@ def claim_cmp(ctx, rule="R-CLAIM-CMP"):
         return s[0] == "attr" and s[2] == "value" and s[1][0] == "call" and s[1][1] == ("clsref", "Name") and \
             dict(s[1][3]).get("bytes") == ("p", "data")
     seen_yield = seen_keep = False
+    own_b = ("attr", ("attr", SELF, "_name"), "bytes")
+    def is_contender_b(s):
+        return s[0] == "attr" and s[2] == "bytes" and s[1][0] == "call" and s[1][1] == ("clsref", "Name") and \
+            dict(s[1][3]).get("bytes") == ("p", "data")
     for r in runs(ctx, f):
+        # Name.bytes is the little-endian byte list (R-NAME-CODEC): list ordering compares the LEAST significant byte first,
+        # which is not the order of the 64-bit values (equality of the lists is equivalent and is not reported)
+        for g, p in lits(r.guards()):
+            if g[0] == "cmp" and g[1] == "<" and own_b in (g[2], g[3]) and (is_contender_b(g[2]) or is_contender_b(g[3])):
+                ctx.violated(rule, f, "arbitration order", "the NAMEs are ordered by comparing their little-endian byte lists (%s): Python compares lists "
+                             "from index 0, i.e. from the least significant byte, so a NAME with a lower 64-bit value but a higher low-order byte "
+                             "loses the arbitration" % pretty(g)[:90], f.node)
+                return
         clears = [(i, e) for i, e in r.effects() if e.kind == "store" and e.target == ("attr", SELF, "_device_address")]
         for g, p in lits(r.guards()):
             if g[0] == "cmp" and g[1] in ("<", "==") and own in (g[2], g[3]):
